@@ -1,15 +1,16 @@
-BOUNDS = ('well-shaped files of concrete variants: BMP 24-bit (bottom-up and top-down) and 32-bit, binary PNM P5/P6, TARGA 24/32-bit raw (bottom-up and top-down); image 3x2 (quick) up to 4x3 (thorough); '
+BOUNDS = ('well-shaped files of concrete variants: BMP 24-bit (bottom-up and top-down) and 32-bit, binary PNM P5/P6, TARGA 24/32-bit raw (bottom-up and top-down), TARGA 24-bit RLE and BMP RLE8/RLE4 with a concrete packet structure (symbolic colour values / indices), palette BMP 1/4/8 bit (partial reads, scanline rows); image 3x2 (quick) up to 4x3 (thorough); '
           'every sub-rectangle (quick: corners and centre) concrete per query; pixel data and the non-structural header bytes symbolic; compared pixel position symbolic')
-OUTSIDE = ('palette and run-length-coded variants, ASCII PNM (their decoders are covered for safety in C11 only); scanline reader and any_image reader; std::istream devices; PNG/JPEG/TIFF')
+OUTSIDE = ('run-length-coded data with symbolic packet structure, ASCII PNM (their decoders are covered for safety in C11 only); scanline reader of run-length-coded and bit-packed files; any_image reader; std::istream devices for anything but the full read_image (C11 covers them for safety); row order of top-down BMP files (all read paths agree with each other, which is what this property states); PNG/JPEG/TIFF')
 ASSUMPTIONS = ['read_image through FILE* is the reference result', 'the FILE* model stands for libc']
 def queries(tier, seed):
     qs = []
-    def add(name, fmt, pix, mode, params, L, w, h, rect=(0, 0, 0, 0), cpix=None, t='quick', probe=(0, 0), refconv=0, stream=None, unw=None):
+    def add(name, fmt, pix, mode, params, L, w, h, rect=(0, 0, 0, 0), cpix=None, t='quick', probe=(0, 0), refconv=0, stream=None, unw=None, spix=None):
         d = dict(FORMAT=fmt, MODE=mode, PIX=pix, REF_CONVERT=refconv)
         if cpix: d['CPIX'] = cpix
+        if spix: d['SPIX'] = spix
         p = [L] + list(params); p += [0] * (12 - len(p)) + [w, h] + list(rect) + list(probe)
         if stream is not None: d['VP_STREAM_AT'] = 22; p += [0, 0, len(stream)] + list(stream)
-        qs.append(Q(name, 'C13/agree.cpp', 'h_agree', defs=d, params=p, rt=['file'], unwind=unw or (max(16, 4 * w + 4) if not refconv else 70), unwindset=([(r'St6vector|fill_n|uninitialized|read_palette', 310)] if refconv else []) + ([(r'scanline_reader|read_palette_image', 2100)] if mode == 7 else []), rt_unwind=L + 4, mem_unwind=400, cdefs=dict(VP_FILE_MAX=L + 8), tier=t, timeout=300))
+        qs.append(Q(name, 'C13/agree.cpp', 'h_agree', defs=d, params=p, rt=['file'] + (['ios'] if mode == 8 else []), unwind=unw or (max(16, 4 * w + 4) if not refconv else 70), unwindset=([(r'St6vector|fill_n|uninitialized|read_palette', 310)] if refconv else []) + ([(r'scanline_reader|read_palette_image', 2100)] if mode in (7, 9) else []), rt_unwind=L + 4, mem_unwind=400, cdefs=dict(VP_FILE_MAX=L + 8), tier=t, timeout=300))
     variants = []
     for (w, h) in ((3, 2), (4, 3), (1, 1)):
         rb = ((w * 24 + 31) // 32) * 4
@@ -37,6 +38,7 @@ def queries(tier, seed):
                     t=t0 if (cp in ('gil::gray8_pixel_t', 'gil::rgba8_pixel_t') and (px, py) in ((0, 0), (w - 1, h - 1))) else 'thorough')
         add('%s/read_view' % vn, fmt, pix, 3, par, L, w, h, t=t0)
         add('%s/name_vs_file' % vn, fmt, pix, 4, par, L, w, h, t=t0)
+        add('%s/istream_vs_file' % vn, fmt, pix, 8, par, L, w, h, t=t0)
         add('%s/info' % vn, fmt, pix, 5, par, L, w, h, t=t0)
         if w > 1: add('%s/too_small_view' % vn, fmt, pix, 6, par, L, w, h, t=t0)
     # palette BMP (8- and 4-bit, 4 declared colours): partial read == crop of the full converting read
@@ -73,4 +75,16 @@ def queries(tier, seed):
             L = 54 + 4 * ncol + h * rb
             for yy in range(h):
                 add('bmp%dpal_%dx%d/scanline/row%d' % (bpp, w, h, yy), 1, 'gil::rgba8_pixel_t', 7, par, L, w, h, (0, yy, 0, 0), t='quick' if (bpp in (1, 4) and w in (1, 3)) else 'thorough', refconv=1)
+    # scanline reader with skipped rows (iterator incremented without dereference): raw formats incl. ASCII PNM (concrete seeded digits)
+    for (w, h) in ((3, 2), (2, 3)):
+        rb = ((w * 24 + 31) // 32) * 4
+        hl = 3 + len(str(w)) + 1 + len(str(h)) + 1 + 4
+        sk = [('bmp24', 1, 'gil::rgb8_pixel_t', [1, 40, 24, 0, w, h, 0, 54, 0, 0], 54 + h * rb),
+              ('pnm2', 2, 'gil::gray8_pixel_t', [2, w, h, 255, 0, seed % 97], hl + w * h * 4), ('pnm3', 2, 'gil::rgb8_pixel_t', [3, w, h, 255, 0, seed % 97], hl + w * h * 12),
+              ('pnm5', 2, 'gil::gray8_pixel_t', [5, w, h, 255, 0, 0], hl + w * h), ('pnm6', 2, 'gil::rgb8_pixel_t', [6, w, h, 255, 0, 0], hl + w * h * 3),
+              ('tga24', 3, 'gil::rgb8_pixel_t', [0, 0, 2, 24, 0, w, h, 0, 0], 18 + w * h * 3)]   # top-down TARGA: the scanline reader refuses it by design
+        for (vn, fmt, pix, par, L) in sk:
+            for yy in range(h):
+                add('%s_%dx%d/scanline_skip/row%d' % (vn, w, h, yy), fmt, pix, 9, par, L, w, h, (0, yy, 0, 0), t='quick' if (w, h) == (3, 2) or (yy == 2 and 'pnm' in vn) else 'thorough',
+                    unw=(40 if vn in ('pnm2', 'pnm3') else None), spix=('gil::bgr8_pixel_t' if vn in ('bmp24', 'tga24') else None))
     return qs
